@@ -35,8 +35,11 @@ CONFIG = {
         trusted_base=["Go integer semantics as modelled in Model/Bits.lean"],
     ),
     "C06": dict(
-        level_text="Kernel-checked Lean theorems (Props/C06.lean): transmit layout of every frame, flag/ID/length/data decoding of every one of the 2^128 blocks, error-frame fields at the linux/can/error.h offsets, validation iff, and decode(encode f) = f for every valid frame; the model is compared with the real Transmitter/Receiver (public API, recording net.Conn / scripted reader) on all 2^11 standard IDs, structured and random extended IDs and blocks on every run; flag/mask constants cross-checked against golang.org/x/sys/unix.",
-        level_note="Trusted: Lean kernel; Model/Frame.lean validated by correspondence; the byte<->BitVec 128 conversion of the driver; kernel ABI constants transcribed by hand (cross-checked with x/sys/unix).",
+        modules=["CanVerif.Props.C06", "CanVerif.Bridge.FrameGo", "CanVerif.Props.C06Code"],
+        t2_modules=["CanVerif.Bridge.FrameGo", "CanVerif.Props.C06Code"],
+        technique="Lean 4 kernel-checked theorems about an executable model; the model is tied to the code (a) by a Go-to-Lean translator run on every check with equivalence to the model proved for all inputs (bv_decide) and (b) by differential execution (correspondence) on every run",
+        level_text="Kernel-checked Lean theorems (Props/C06.lean): transmit layout of every frame, flag/ID/length/data decoding of every one of the 2^128 blocks, error-frame fields at the linux/can/error.h offsets, validation iff, and decode(encode f) = f for every valid frame; the model is compared with the real Transmitter/Receiver (public API, recording net.Conn / scripted reader) on all 2^11 standard IDs, structured and random extended IDs and blocks on every run; flag/mask constants cross-checked against golang.org/x/sys/unix. Frame.Validate, encodeFrame, decodeFrame, the flag / ID getters and the error-frame getters are additionally translated from the working tree to Lean on every run (T1, harness/cmd/go2lean) and proved equal to the model for every frame, and panic-free (Bridge/FrameGo.lean, bv_decide); Props/C06Code.lean restates validation, transmit block, receive decoding, error fields and the round trip about the translated code (the 16-byte slice layout step stays the model's). If the translator does not cover the current source shape the run says so (coverage.tie_notes) and rests on the correspondence run.",
+        level_note="Trusted: Lean kernel; Model/Frame.lean validated by correspondence; the byte<->BitVec 128 conversion of the driver; kernel ABI constants transcribed by hand (cross-checked with x/sys/unix). T1 bridge theorems and the *Code corollaries additionally depend on bv_decide certificate axioms (listed per theorem under coverage.axioms); marshalBinary / unmarshalBinary (byte slices) are not translated.",
         level="proof", exhaustive=True,
         exhaustive_what="all 2^11 standard IDs; all 8 flag combinations x 37 ID patterns x dlc classes for received blocks; Validate for every length 0..255",
         trivial=r"^(ok|err|-)$",
@@ -52,8 +55,11 @@ CONFIG = {
         trusted_base=["bufio.Scanner (stdlib) is modelled, not verified"],
     ),
     "C08": dict(
-        level_text="Kernel-checked Lean theorems (Props/C08.lean): descriptor (un)marshal functions are the C01/C02 functions of the descriptor's layout (inheriting their bit-level specs), exact closed-form bounds for every length 1..64, saturated casts equal clamping to those bounds for every int64/uint64 argument, float signals move exactly the 32-bit pattern; model compared with pkg/descriptor on all 4160 geometries, every length and boundary/random arguments on every run.",
-        level_note="Trusted: Lean kernel; Model/Signal.lean + Model/Bits.lean validated by correspondence; hardware float32<->float64 conversions (exactly representable values only are exercised); harness and driver.",
+        modules=["CanVerif.Props.C08", "CanVerif.Bridge.SignalGo", "CanVerif.Props.C08Code"],
+        t2_modules=["CanVerif.Bridge.SignalGo", "CanVerif.Props.C08Code"],
+        technique="Lean 4 kernel-checked theorems about an executable model; the model is tied to the code (a) by a Go-to-Lean translator run on every check with equivalence to the model proved for all inputs (bv_decide) and (b) by differential execution (correspondence) on every run",
+        level_text="Kernel-checked Lean theorems (Props/C08.lean): descriptor (un)marshal functions are the C01/C02 functions of the descriptor's layout (inheriting their bit-level specs), exact closed-form bounds for every length 1..64, saturated casts equal clamping to those bounds for every int64/uint64 argument, float signals move exactly the 32-bit pattern; model compared with pkg/descriptor on all 4160 geometries, every length and boundary/random arguments on every run. The integer functions of signal.go (layout dispatch, bool access, bounds, saturated casts) are additionally translated from the working tree to Lean on every run (T1, harness/cmd/go2lean) and proved equal to the model for every descriptor, payload and value, and panic-free, by bv_decide (Bridge/SignalGo.lean); Props/C08Code.lean restates the theorems about the translated code. If the translator does not cover the current source shape the run says so (coverage.tie_notes) and rests on the correspondence run.",
+        level_note="Trusted: Lean kernel; Model/Signal.lean + Model/Bits.lean validated by correspondence; hardware float32<->float64 conversions (exactly representable values only are exercised); harness and driver. T1 bridge theorems and the *Code corollaries additionally depend on bv_decide certificate axioms (listed per theorem under coverage.axioms); the float functions are not translated.",
         level="proof", exhaustive=True,
         exhaustive_what="all 4160 fitting geometries x {signed, unsigned, float32 on 32-bit}; every length 1..64 for bounds and saturation",
         trivial=r"^(0|1|-1|-|0{16}|f{16})$",
@@ -254,7 +260,7 @@ def _go2lean(work):
     return ""
 
 
-PRE_PROVE = {"C13": _extract_runner, "C01": _go2lean, "C02": _go2lean, "C17": _go2lean}
+PRE_PROVE = {"C13": _extract_runner, "C01": _go2lean, "C02": _go2lean, "C17": _go2lean, "C08": _go2lean, "C06": _go2lean}
 def _unicode_tie(work, impl):
     """the committed unicode tables equal what the toolchain's unicode package says now"""
     import subprocess, os
